@@ -480,3 +480,44 @@ pub fn level3_slice(thorough: bool) -> BinaryWith {
     // offset n1: binary operators over two level-1 terms are level-2 programs of the core pool already
     BinaryWith { small, base: Box::new(base), stride: 1, offset: n1 }
 }
+
+/// A level-3 layer with a binary operator over two *binary* level-2 programs: operands of the shape
+/// op(u(x), y) / op(y, u(x)) with a unary operator hidden one level down.
+pub struct PairFamily {
+    pub u: Universe,
+    pub m: Vec<Rc<P>>,
+}
+impl Family for PairFamily {
+    fn name(&self) -> String {
+        format!("level3-pairs/u0 (binary operator over two of {} programs of the shape op(unary(atom), atom))", self.m.len())
+    }
+    fn universe(&self) -> &Universe {
+        &self.u
+    }
+    fn len(&self) -> usize {
+        self.m.len() * self.m.len() * 4
+    }
+    fn get(&self, i: usize) -> P {
+        let op = BOPS[i % 4];
+        let ab = i / 4;
+        apply_b(op, &self.m[ab / self.m.len()], &self.m[ab % self.m.len()])
+    }
+}
+pub fn level3_pairs(thorough: bool) -> PairFamily {
+    let atoms: Vec<Rc<P>> = if thorough { QUICK_RANGES.iter().map(|&(l, h)| Rc::new(P::Rng(l, h))).collect() } else { [(1u8, 1u8), (2, 2), (1, 2), (0, 5)].iter().map(|&(l, h)| Rc::new(P::Rng(l, h))).collect() };
+    let uops: Vec<UOp> = if thorough { uops_quick() } else { vec![UOp::Comp, UOp::Star, UOp::Plus] };
+    let bops: Vec<BOp> = if thorough { BOPS.to_vec() } else { vec![BOp::Concat, BOp::Union] };
+    let mut m = vec![];
+    for &op in &bops {
+        for &uo in &uops {
+            for x in &atoms {
+                for y in &atoms {
+                    let ux = Rc::new(apply_u(uo, x));
+                    m.push(Rc::new(apply_b(op, &ux, y)));
+                    m.push(Rc::new(apply_b(op, y, &ux)));
+                }
+            }
+        }
+    }
+    PairFamily { u: Universe::new(0), m }
+}
